@@ -532,6 +532,53 @@ func (p *P) guardedAfter(rule string, fn *ssa.Function, sinks []Sink, guards ...
 				}
 			}
 			if bad != "" {
+				// the guard sits in a spliced helper: follow the activation in which it failed (its result reaches the
+				// caller only through the returns reachable from the guard inside the helper)
+				filter := map[*ssa.Function]map[*ssa.Return]bool{}
+				for v := range inj {
+					gi, ok := v.(ssa.Instruction)
+					if !ok || gi.Parent() == nil || gi.Parent() == fn || helperSite[gi.Parent()] == nil {
+						continue
+					}
+					h := gi.Parent()
+					seen := map[*ssa.BasicBlock]bool{}
+					var walk func(b *ssa.BasicBlock)
+					walk = func(b *ssa.BasicBlock) {
+						if seen[b] {
+							return
+						}
+						seen[b] = true
+						if len(b.Instrs) > 0 {
+							if ret, ok := b.Instrs[len(b.Instrs)-1].(*ssa.Return); ok {
+								if filter[h] == nil {
+									filter[h] = map[*ssa.Return]bool{}
+								}
+								filter[h][ret] = true
+							}
+						}
+						for _, su := range b.Succs {
+							walk(su)
+						}
+					}
+					walk(gi.Block())
+				}
+				if len(filter) > 0 {
+					sccpRetFilter = filter
+					s2 := RunSCCP(fn, g.all(fn))
+					sccpRetFilter = map[*ssa.Function]map[*ssa.Return]bool{}
+					still := false
+					for v := range inj {
+						gi, ok := v.(ssa.Instruction)
+						if ok && s2.Reachable(gi) && s2.reachableAfter(gi, sk.Instr) {
+							still = true
+						}
+					}
+					if !still {
+						bad = ""
+					}
+				}
+			}
+			if bad != "" {
 				p.r.Fail(rule, construct, p.c.InstrPos(sk.Instr), fmt.Sprintf("%s is reachable after guard «%s» failed at %s", sk.Label, g.Name, bad))
 			} else {
 				o := p.r.add(rule, construct, "discharged", p.c.InstrPos(sk.Instr), "unreachable from the failed guard (SCCP)", "")
